@@ -48,7 +48,15 @@ impl GenCfg {
     pub fn small() -> GenCfg {
         GenCfg {
             metrics: ALL_METRICS.to_vec(),
-            classes: vec![ValueClass::Grid, ValueClass::Uniform, ValueClass::Clustered, ValueClass::Collinear, ValueClass::Sparse],
+            classes: vec![
+                ValueClass::Grid,
+                ValueClass::Uniform,
+                ValueClass::Clustered,
+                ValueClass::Collinear,
+                ValueClass::Sparse,
+                ValueClass::FarCluster,
+                ValueClass::FarClusterMixed,
+            ],
             dims: small_dims(),
             max_indexes: 2,
             rounds: (2, 6),
